@@ -79,6 +79,7 @@ func hcGenExchange(rng *sim.Rand, prop string, sc *hcScenario) hcExchange {
 		ex.RGzip = rng.Bool(0.25)
 		ex.RInc = rng.Bool(0.3)
 		ex.RLastCoalesced = rng.Bool(0.5)
+		ex.RCloseDelim = !ex.RChunked && rng.Bool(0.08)
 		if ex.RGzip && ex.RBodyLen >= 100 && rng.Bool(0.08) {
 			ex.RGzipBad = rng.Pick(1, 2)
 		}
@@ -284,6 +285,7 @@ func hcGenC07(rng *sim.Rand, tier string) interface{} {
 					}
 				}
 				ex.RLastCoalesced = rng.Bool(0.5)
+				ex.RCloseDelim = !ex.RChunked && rng.Bool(0.08)
 				if sc.Retry > 1 && rng.Bool(0.5) {
 					ex.FailFirst = 1
 				}
